@@ -55,6 +55,7 @@ Record srv := {
   banned : N -> bool;               (* BruteForceProtector.bannedIPs *)
   black : N -> bool;                (* IPManager.blacklist, by entry key: [k_ip a] = the entry "a", [k_cidr a] = a CIDR entry covering a;
                                        persisted in storage (ip_manager_storage.go) *)
+  white : N -> bool;                (* IPManager.whitelist, same keys; persisted likewise *)
   fails : N -> N;                   (* BruteForceProtector.failures[ip] (all inside the time window) *)
   rl_deny : bool;                   (* RateLimiter.AllowIP refuses *)
   conns : N -> option conn;         (* SessionManager.connMap + ClientRegistry.connMap *)
@@ -63,43 +64,48 @@ Record srv := {
 (* blacklist entry keys for address a: the exact-IP entry and a CIDR entry (/32) covering it *)
 Definition k_ip (a : N) : N := 2 * a.
 Definition k_cidr (a : N) : N := 2 * a + 1.
-(* IPManager.IsAllowed = false (whitelist empty): exact match or CIDR match, permanent or not yet expired *)
-Definition blocked (s : srv) (a : N) : bool := black s (k_ip a) || black s (k_cidr a).
+(* IPManager.IsAllowed = false *)
+Definition listed (l : N -> bool) (a : N) : bool := l (k_ip a) || l (k_cidr a).
+(* whitelist first, then blacklist (an in-force exact or covering entry) *)
+Definition blocked (s : srv) (a : N) : bool := negb (listed (white s) a) && listed (black s) a.
 
 Definition init : srv :=
   {| clients := fun _ => None; next_id := 1; next_secret := 1; next_nonce := 1;
-     banned := fun _ => false; black := fun _ => false; fails := fun _ => 0; rl_deny := false;
+     banned := fun _ => false; black := fun _ => false; white := fun _ => false; fails := fun _ => 0; rl_deny := false;
      conns := fun _ => None; index := fun _ => None |}.
 
 Definition set_clients (s : srv) v := {| clients := v; next_id := next_id s; next_secret := next_secret s;
-  next_nonce := next_nonce s; banned := banned s; black := black s; fails := fails s; rl_deny := rl_deny s;
+  next_nonce := next_nonce s; banned := banned s; black := black s; white := white s; fails := fails s; rl_deny := rl_deny s;
   conns := conns s; index := index s |}.
 Definition set_banned (s : srv) v := {| clients := clients s; next_id := next_id s; next_secret := next_secret s;
-  next_nonce := next_nonce s; banned := v; black := black s; fails := fails s; rl_deny := rl_deny s;
+  next_nonce := next_nonce s; banned := v; black := black s; white := white s; fails := fails s; rl_deny := rl_deny s;
   conns := conns s; index := index s |}.
 Definition set_black (s : srv) v := {| clients := clients s; next_id := next_id s; next_secret := next_secret s;
-  next_nonce := next_nonce s; banned := banned s; black := v; fails := fails s; rl_deny := rl_deny s;
+  next_nonce := next_nonce s; banned := banned s; black := v; white := white s; fails := fails s; rl_deny := rl_deny s;
+  conns := conns s; index := index s |}.
+Definition set_white (s : srv) v := {| clients := clients s; next_id := next_id s; next_secret := next_secret s;
+  next_nonce := next_nonce s; banned := banned s; black := black s; white := v; fails := fails s; rl_deny := rl_deny s;
   conns := conns s; index := index s |}.
 Definition set_fails (s : srv) v := {| clients := clients s; next_id := next_id s; next_secret := next_secret s;
-  next_nonce := next_nonce s; banned := banned s; black := black s; fails := v; rl_deny := rl_deny s;
+  next_nonce := next_nonce s; banned := banned s; black := black s; white := white s; fails := v; rl_deny := rl_deny s;
   conns := conns s; index := index s |}.
 Definition set_rl (s : srv) v := {| clients := clients s; next_id := next_id s; next_secret := next_secret s;
-  next_nonce := next_nonce s; banned := banned s; black := black s; fails := fails s; rl_deny := v;
+  next_nonce := next_nonce s; banned := banned s; black := black s; white := white s; fails := fails s; rl_deny := v;
   conns := conns s; index := index s |}.
 Definition set_conns (s : srv) v := {| clients := clients s; next_id := next_id s; next_secret := next_secret s;
-  next_nonce := next_nonce s; banned := banned s; black := black s; fails := fails s; rl_deny := rl_deny s;
+  next_nonce := next_nonce s; banned := banned s; black := black s; white := white s; fails := fails s; rl_deny := rl_deny s;
   conns := v; index := index s |}.
 Definition set_index (s : srv) v := {| clients := clients s; next_id := next_id s; next_secret := next_secret s;
-  next_nonce := next_nonce s; banned := banned s; black := black s; fails := fails s; rl_deny := rl_deny s;
+  next_nonce := next_nonce s; banned := banned s; black := black s; white := white s; fails := fails s; rl_deny := rl_deny s;
   conns := conns s; index := v |}.
 Definition bump_nonce (s : srv) := {| clients := clients s; next_id := next_id s; next_secret := next_secret s;
-  next_nonce := next_nonce s + 1; banned := banned s; black := black s; fails := fails s; rl_deny := rl_deny s;
+  next_nonce := next_nonce s + 1; banned := banned s; black := black s; white := white s; fails := fails s; rl_deny := rl_deny s;
   conns := conns s; index := index s |}.
 (* GenerateAnonymousCredentials: a new id with a new secret, not expired (ExpiresAt = now + 30 days) *)
 Definition register (s : srv) := {|
   clients := upd (clients s) (next_id s) (Some {| stored := CKey (next_secret s); expired := false; meta := 0 |});
   next_id := next_id s + 1; next_secret := next_secret s + 1;
-  next_nonce := next_nonce s; banned := banned s; black := black s; fails := fails s; rl_deny := rl_deny s;
+  next_nonce := next_nonce s; banned := banned s; black := black s; white := white s; fails := fails s; rl_deny := rl_deny s;
   conns := conns s; index := index s |}.
 (* ResetSecretKey *)
 Definition rekey (s : srv) (x : N) := match clients s x with
@@ -107,7 +113,7 @@ Definition rekey (s : srv) (x : N) := match clients s x with
   | Some cl => {|
       clients := upd (clients s) x (Some {| stored := CKey (next_secret s); expired := expired cl; meta := meta cl |});
       next_id := next_id s; next_secret := next_secret s + 1;
-      next_nonce := next_nonce s; banned := banned s; black := black s; fails := fails s; rl_deny := rl_deny s;
+      next_nonce := next_nonce s; banned := banned s; black := black s; white := white s; fails := fails s; rl_deny := rl_deny s;
       conns := conns s; index := index s |}
   end.
 
@@ -144,10 +150,13 @@ Definition first_state (keep : bool) (s : srv) (a : N) : srv :=
   if keep then register s else clear_fails (register s) a.
 
 (* auth_handler.go HandleHandshake, on the ControlConnection [c] of a peer at address [a] *)
-Definition auth (keep : bool) (s : srv) (c : cc) (a : N) (m : hs) : srv * cc * aresp :=
-  if blocked s a then (s, c, AFail)                                      (* 1. IPManager.IsAllowed *)
-  else if banned s a then (s, c, AFail)                                  (* 2. BruteForceProtector.IsBanned *)
-  else if (h_cid m =? 0) && rl_deny s then (s, c, AFail)                 (* 3. rate limit, anonymous only *)
+(* steps 1-3 of HandleHandshake: 1. IPManager.IsAllowed, 2. BruteForceProtector.IsBanned, 3. rate limit (anonymous only).
+   chk = false: the gate checks are not (re-)evaluated — the completion of a handshake that passed them earlier (EBody) *)
+Definition gate_fail (chk : bool) (s : srv) (a : N) (m : hs) : bool :=
+  chk && (blocked s a || banned s a || ((h_cid m =? 0) && rl_deny s)).
+
+Definition auth (chk keep : bool) (s : srv) (c : cc) (a : N) (m : hs) : srv * cc * aresp :=
+  if gate_fail chk s a m then (s, c, AFail)
   else if (h_cid m =? 0) && h_new m then                                 (* 4. handleFirstConnection *)
     let id := next_id s in
     (first_state keep s a, {| authed := true; ccid := id; pending := pending c |}, ASuccessNew id)
@@ -202,7 +211,7 @@ Definition evict (s : srv) (k : N) : srv :=
   end.
 
 (* packet_handler_handshake.go handleHandshake for a packet on connection k; m = None: the payload is not JSON *)
-Definition handle (v : variant) (s : srv) (k : N) (m : option hs) : srv * out :=
+Definition handle (chk : bool) (v : variant) (s : srv) (k : N) (m : option hs) : srv * out :=
   match m with
   | None => (s, {| o_err := true; o_wire := WNone; o_auth := None |})
   | Some h =>
@@ -210,7 +219,7 @@ Definition handle (v : variant) (s : srv) (k : N) (m : option hs) : srv * out :=
     | None => (s, {| o_err := true; o_wire := WNone; o_auth := None |})   (* connection not found *)
     | Some cn =>
       let c0 := match c_cc cn with Some c => c | None => new_cc end in    (* existing or NewControlConnection+Register *)
-      let '(s1, c1, ar) := auth (v_first_keeps v) s c0 (c_addr cn) h in
+      let '(s1, c1, ar) := auth chk (v_first_keeps v) s c0 (c_addr cn) h in
       let s2 := set_conns s1 (upd (conns s1) k (Some {| c_open := c_open cn; c_addr := c_addr cn; c_cc := Some c1 |})) in
       let s3 := set_index s2 (reconcile (index s2) k c1) in               (* ReconcileIndex *)
       match ar with
@@ -247,16 +256,21 @@ Inductive ev :=
                                             UserID, Type and the other non-gate fields become m *)
 | EBanLapse (a : N)                      (* a short temporary ban on a is requested and runs out.  banIP never weakens a ban in force,
                                             and an expired record does not ban: the set of banned addresses is unchanged *)
-| EUnbanLands (a : N).                   (* the asynchronous unbanIfExpired(a) spawned by IsBanned runs: it deletes only a record that
+| EUnbanLands (a : N)
+| EWhite (a : N) (cidr : bool) | EUnwhite (a : N) (cidr : bool)    (* AddToWhitelist / RemoveFromWhitelist of the exact or CIDR entry *)
+| EBody (k : N) (m : hs).                (* the rest of a handshake on k that passed the gate checks (steps 1-3) EARLIER: handshakes of
+                                            several connections overlap in the real server, the gates are evaluated first and other
+                                            handshakes (failures, bans) may complete before this one does.  EMsg = gates + body at once;
+                                            an EBody anywhere in a history over-approximates every such overlap *)                   (* the asynchronous unbanIfExpired(a) spawned by IsBanned runs: it deletes only a record that
                                             is (still) expired under the lock, i.e. never a ban in force *)
 
 (* what survives a restart of the server process: everything the code keeps in storage — client configs (and the id /
-   secret / nonce numbering of the abstraction) and the IP blacklist.  In process memory only, hence lost: connections and
+   secret / nonce numbering of the abstraction) and the IP blacklist and whitelist.  In process memory only, hence lost: connections and
    their ControlConnections (with pending challenges), the client registry, brute-force failure records AND bans
    (BruteForceProtector has no storage), rate-limiter buckets. *)
 Definition restart (s : srv) : srv :=
   {| clients := clients s; next_id := next_id s; next_secret := next_secret s; next_nonce := next_nonce s;
-     banned := fun _ => false; black := black s; fails := fun _ => 0; rl_deny := false;
+     banned := fun _ => false; black := black s; white := white s; fails := fun _ => 0; rl_deny := false;
      conns := fun _ => None; index := fun _ => None |}.
 
 Definition no_out := {| o_err := false; o_wire := WNone; o_auth := None |}.
@@ -267,7 +281,8 @@ Definition close (s : srv) (k : N) : srv :=
 
 Definition step (v : variant) (s : srv) (e : ev) : srv * out :=
   match e with
-  | EMsg k m => handle v s k m
+  | EMsg k m => handle true v s k m
+  | EBody k m => handle false v s k (Some m)
   | EBan a => (set_banned s (upd (banned s) a true), no_out)
   | EUnban a => (set_banned s (upd (banned s) a false), no_out)
   | EBlack a => (set_black s (upd (black s) (k_ip a) true), no_out)
@@ -294,6 +309,8 @@ Definition step (v : variant) (s : srv) (e : ev) : srv * out :=
                          | None => s end, no_out)
   | EBanLapse _ => (s, no_out)
   | EUnbanLands _ => (s, no_out)
+  | EWhite a c => (set_white s (upd (white s) (if c then k_cidr a else k_ip a) true), no_out)
+  | EUnwhite a c => (set_white s (upd (white s) (if c then k_cidr a else k_ip a) false), no_out)
   end.
 
 Fixpoint run (v : variant) (s : srv) (es : list ev) : srv :=
@@ -314,12 +331,12 @@ Definition addr_of (s : srv) (k : N) : option N :=
 (* the challenge a handshake message on connection k is verified against, if the handler gets as far as
    VerifyResponse (phase 2: not gated, not a first connection, client known and not expired, a response present,
    a challenge pending); that challenge is cleared by this very step whether or not the response is correct *)
-Definition verif_target (s : srv) (k : N) (m : hs) : option N :=
+Definition verif_target (chk : bool) (s : srv) (k : N) (m : hs) : option N :=
   match conns s k with
   | None => None
   | Some cn =>
-    if blocked s (c_addr cn) || banned s (c_addr cn) then None
-    else if (h_cid m =? 0) && (rl_deny s || h_new m) then None
+    if gate_fail chk s (c_addr cn) m then None
+    else if (h_cid m =? 0) && h_new m then None
     else match clients s (h_cid m) with
          | None => None
          | Some cl => if expired cl then None else
@@ -336,7 +353,8 @@ Fixpoint targets (v : variant) (s : srv) (es : list ev) : list N :=
   | [] => []
   | e :: es' =>
     (match e with
-     | EMsg k (Some m) => match verif_target s k m with Some ch => [ch] | None => [] end
+     | EMsg k (Some m) => match verif_target true s k m with Some ch => [ch] | None => [] end
+     | EBody k m => match verif_target false s k m with Some ch => [ch] | None => [] end
      | _ => []
      end) ++ targets v (fst (step v s e)) es'
   end.
